@@ -26,7 +26,7 @@ COMPONENTS = E1_COMPONENTS
 ASSUMPTIONS = E1_ASSUMPTIONS + [
     "pattern forms: NAME, NAME/, single-component globs, **/NAME[/], absolute paths with optional final-component "
     "glob; relative patterns with an inner slash are not generated (their anchor is not fixed by the statement)"]
-PROBES = ["other_input_first", "ancestor_with_glob_characters", "stdout_mode", "unlistable_excluded_dir", "dir_and_file_share_a_name", "ancestor_named_like_pattern", "two_excluded_siblings_adjacent", "two_excluded_siblings_separated", "root_excluded",
+PROBES = ["logger_level_above_debug", "other_input_first", "ancestor_with_glob_characters", "stdout_mode", "unlistable_excluded_dir", "dir_and_file_share_a_name", "ancestor_named_like_pattern", "two_excluded_siblings_adjacent", "two_excluded_siblings_separated", "root_excluded",
           "dir_emptied_by_exclusion", "abs_pattern", "pattern_from_cli", "pattern_from_sfile",
           "pattern_from_user_config", "excluded_dir_with_content", "nonrecursive", "auto_exclude_off"]
 
@@ -121,12 +121,36 @@ def strategy(cfg):
                 "unlistable_excluded_dir": draw(st.integers(0, 3)) == 0,
                 # another directory documented first in the same invocation (the patterns must still hold for this one)
                 "decoy_first": draw(st.integers(0, 3)) == 0,
+                # the cminx logger quieter than its default DEBUG (a complete logging section in the -s file or
+                # the user configuration): what is logged must not decide what is excluded
+                "log_level": draw(st.sampled_from([None, None, "INFO", "WARNING", "ERROR"])),
+                "log_src": draw(st.integers(1, 2)),
             })
         return {"files": files, "proj": site.proj, "out": out, "patterns": pats, "recursive": recursive,
                 "auto_exclude": auto, "variants": variants}
     return world()
 
 
+LOGGING_YAML = """logging:
+  version: 1
+  formatters:
+    simple:
+      format: '%%(name)s - %%(levelname)s - %%(message)s'
+  handlers:
+    console:
+      class: logging.StreamHandler
+      level: INFO
+      formatter: simple
+      stream: ext://sys.stdout
+  loggers:
+    cminx:
+      level: %s
+      handlers: [console]
+      propagate: no
+  root:
+    level: DEBUG
+    handlers: [console]
+"""
 DECOY = "decoys/zzdecoy/zzdecoy_mod.cmake"
 DECOY_PAGES = {"zzdecoy_mod.rst", "index.rst"}
 
@@ -155,6 +179,11 @@ def variant_setup(spec, var):
             user_in["recursive"] = True
     s_text = build_config(by[1], sfile_in)
     u_text = build_config(by[2], user_in)
+    if var.get("log_level"):
+        if var.get("log_src") == 1:
+            s_text = (s_text or "") + LOGGING_YAML % var["log_level"]
+        else:
+            u_text = (u_text or "") + LOGGING_YAML % var["log_level"]
     overlay = {}
     if s_text:
         overlay["cfg/s.yaml"] = s_text
@@ -226,6 +255,8 @@ def evaluate(spec, ctx):
                           matched_any)
             got = created_under(res, out)
             decoy = bool(var.get("decoy_first") and not var.get("stdout"))
+            if var.get("log_level"):
+                ctx.probes["logger_level_above_debug"] += 1
             if decoy:
                 ctx.probes["other_input_first"] += 1
                 got = got - {"zzdecoy_mod.rst"}
@@ -380,7 +411,8 @@ MANIFEST = {
                   "simulator (seeded key or explicit permutation, several schedules per world), patterns arrive through -e, -s file "
                   "and user config, and the tree sits at generated locations.  Invariant per event (no excluded file opened, nothing "
                   "below an excluded directory listed) plus page set == reference walk with an independent gitignore matcher, "
-                  "identical across schedules and sources.  Sampling, not proof.",
+                  "identical across schedules and sources.  Variants may document another directory first in the same invocation "
+                  "and may set the cminx logger above DEBUG from a configuration file.  Sampling, not proof.",
     "level_note": "trusted: the 40-line reference matcher for the generated pattern forms, tmpfs, third-party libraries as installed; "
                   "relative patterns with inner slashes are not generated",
 }
